@@ -900,7 +900,7 @@ class _Ops:
         if any(os.path.lexists(self.full(self.stem_of(name) + s_)) for s_ in SUFFIXES + [".raw", ".zraw", ".raw.gz", ".hdr.gz"]):
             return StepResult("skipped")  # keep the stem free of other formats (ambiguous-stem rules stay as they are)
         os.symlink(self.full(target), self.full(name))
-        self.rec[name] = Record(name, trec.kind, trec.arr, trec.hdr, {name, target}, trec.writer, True, trec.axes, trec.flow, trec.compress, dict(trec.desc))
+        self.rec[name] = Record(name, trec.kind, trec.arr, trec.hdr, {name, target}, trec.writer, True, trec.axes, trec.flow, trec.compress, dict(trec.desc), file_axes=trec.file_axes)
         self.c["faults"]["symlinked_path"] += 1
         return StepResult("ok", "symlink")
 
